@@ -120,8 +120,78 @@ fn enospc(seed: u64, report: &mut Report) {
     let _ = std::process::Command::new("umount").arg(&mnt).status();
 }
 
+
+/// Directed, real code + the property's oracles: the storage error is "already exists" for a BLOCK, and it is
+/// genuine — another backup, running at the same time into the same archive, has just stored a block of the same
+/// content.  The refused backup may fail or count an error; the block belongs to the other writer, whose
+/// completed version must keep restoring exactly (no dangling reference).
+fn refused_block_belongs_to_another_writer(report: &mut Report) {
+    use crate::conc::*;
+    let mk = |name: &str, kind: NodeKind, m: i64| Node { comps: if name.is_empty() { vec![] } else { vec![name.to_string()] }, kind: kind.clone(), mode: if matches!(kind, NodeKind::Dir) { 0o755 } else { 0o644 }, mtime_ns: 1_640_000_000_000_000_000 + m, uid: 0, gid: 0 };
+    let shared: Vec<u8> = (0..60u8).map(|i| i.wrapping_mul(7) ^ 0x5a).collect();
+    let mut t0 = Tree::default();
+    t0.nodes.insert("/".into(), mk("", NodeKind::Dir, 0));
+    t0.nodes.insert("/old".into(), mk("old", NodeKind::File(b"the first version".to_vec()), 1));
+    let mut ta = t0.clone();
+    ta.nodes.insert("/a-only".into(), mk("a-only", NodeKind::File(b"only in source A, longer than the cap".to_vec()), 2));
+    ta.nodes.insert("/shared".into(), mk("shared", NodeKind::File(shared.clone()), 3));
+    let mut tb = t0.clone();
+    tb.nodes.insert("/b-only".into(), mk("b-only", NodeKind::File(b"only in source B, longer than the cap".to_vec()), 4));
+    tb.nodes.insert("/shared".into(), mk("shared", NodeKind::File(shared), 5));
+    let steps = vec![Step::SetTree(t0), Step::Backup(BackupParamsLite { hunk: 1000, block: 1 << 20, cap: 8 }), Step::SetTree(ta)];
+    let case_id = json!({"directed": "two backups store the same new block", "prefix": history_json(&steps)});
+    let sc = build_scenario(&steps, report, &case_id, "fault-race-prefix");
+    let src_b = sc.run.work.path().join("src-b");
+    tb.materialize(&src_b);
+    let obs_b = observe(&src_b);
+    let pa = BackupParamsOwned { hunk: 1000, block: 1 << 20, cap: 8 };
+    let a = ActorSpec::Backup { params: pa.clone(), source: sc.run.src.clone(), slot: 0 };
+    let b = ActorSpec::Backup { params: pa, source: src_b.clone(), slot: 1 };
+    for i in 0..16usize {
+        let arch = fresh_copy(&sc, "frace");
+        let mut sched = vec![false; i];
+        sched.extend(vec![true; 400]);
+        let (ra, rb) = run_schedule(&arch, &a, &b, &sched);
+        let (post, _) = abstract_archive(&arch);
+        let case = json!({"scenario": case_id, "schedule": format!("A moves {i} times, then B to the end, then A")});
+        report.case(&format!("fault-race/{i}"), true);
+        report.hit("directed:refused-block-of-another-writer");
+        if ra.trace.iter().any(|l| l.starts_with("op write d/") && !l.ends_with(" ok")) {
+            report.hit("directed:refused-block-of-another-writer:refusal-happened");
+        }
+        if ra.result.starts_with("result panic") || rb.result.starts_with("result panic") {
+            report.oracle_fail("fault:panic", case.clone(), "a refused block write crashed a backup", json!({"a": trunc(&ra.result), "b": trunc(&rb.result)}));
+        }
+        if let Some(why) = extends(&sc.pre_state, &post) {
+            report.oracle_fail("fault:existing-file-touched", case.clone(), "the backups altered or removed an existing archive file", json!(why));
+        }
+        let st = state_map(&post);
+        for band in all_bands(&post) {
+            for (hunk, e) in band_entries(&st, band) {
+                if let Err(why) = entry_content(&st, &e) {
+                    report.oracle_fail("fault:dangling-reference", case.clone(), "an index entry refers to a block that is missing or too short after a block write was refused", json!({"hunk": hunk, "apath": e.apath, "why": why, "a": trunc(&ra.result)}));
+                }
+            }
+        }
+        if rb.result.starts_with("result ok") && rb.result.contains(" errors=0") {
+            let mine = complete_bands(&post).into_iter().find(|x| rb.trace.iter().any(|l| l.starts_with(&format!("op write {}/BANDTAIL", band_name(*x))) && l.ends_with(" ok")));
+            match mine {
+                None => report.oracle_fail("fault:false-success", case.clone(), "a backup reported clean success but its version is not complete in the archive", json!(trunc(&rb.result))),
+                Some(x) => {
+                    let (rr, robs) = restore_observe(&arch, sc.run.work.path(), &Sel::Band(x), "frace");
+                    if !rr.result.starts_with("result ok") || !rr.events.is_empty() || crate::c01::tree_diff(&obs_b, &robs).is_some() {
+                        report.oracle_fail("fault:false-success", case.clone(), "the version of the backup that reported clean success does not restore to its source after the other backup's block write was refused", json!({"band": band_name(x), "restore": trunc(&rr.result), "events": rr.events.iter().take(2).collect::<Vec<_>>()}));
+                    }
+                }
+            }
+        }
+        remove_copy(&arch);
+    }
+}
+
 pub fn run(tier: &str, seed: u64, report: &mut Report) {
     enospc(seed, report);
+    refused_block_belongs_to_another_writer(report);
     let thorough = tier == "thorough";
     let n_scen = if thorough { 40 } else { 4 };
     for sidx in 0..n_scen {
